@@ -152,10 +152,17 @@ func (s *Session) Send(out, ptext []byte, now time.Time) ([]byte, error) {
 	if !s.canSend() {
 		return nil, errors.New("handshake has not completed")
 	}
-	if atomic.LoadUint64(&s.nonce) >= MaxNonce {
-		return nil, errors.New("session has hit message limit")
+	// check the limit and take the counter in one step: concurrent callers must not pass the check together
+	var nonce uint64
+	for {
+		nonce = atomic.LoadUint64(&s.nonce)
+		if nonce >= MaxNonce {
+			return nil, errors.New("session has hit message limit")
+		}
+		if atomic.CompareAndSwapUint64(&s.nonce, nonce, nonce+1) {
+			break
+		}
 	}
-	nonce := atomic.AddUint64(&s.nonce, 1) - 1
 	msg := newMessage(uint32(nonce))
 	out = append(out, msg...)
 	out = s.cipherOut.Encrypt(out, nonce, msg, ptext)
